@@ -421,7 +421,7 @@ Qed.
 
 (* ---------- div_nx1_normalized / div_nx2_normalized (algorithms/div/small.rs) ---------- *)
 From RV.Model Require DivSmall.
-From RV.Proofs Require PfDivBase.
+From RV.Proofs Require PfDivBase PfDivSmall.
 
 Lemma div_2x1_mg10_range u d v q r : DivSmall.div_2x1_mg10 u d v = Val (q, r) -> inW q /\ inW r.
 Proof.
@@ -561,4 +561,385 @@ Proof.
   rewrite app_nil_r in E. cbv beta zeta in E |- *. rewrite E. rewrite nx2_rloop.
   destruct (DivSmall.nx2_norm_loop (rev u) d v 0) as [[rs r]| | | |]; cbn [obind fst snd]; try reflexivity.
   rewrite app_nil_r. reflexivity.
+Qed.
+
+(* ---------- div_nx1 / div_nx2: downward loop reading xs[i] and xs[i-1], writing xs[i] ---------- *)
+Section RevLoop2.
+  Variables T St : Type.
+  Variable inj : list Z -> St -> T.
+  Variable stepo : Z -> Z -> St -> outcome (Z * St).   (* upper, lower (still original), state *)
+  Variable P : St -> Prop.
+  Variable Q : Z -> Prop.
+  Variable n : nat.                                     (* the body is only characterised below n *)
+  Variable body : Z -> T -> outcome T.
+
+  (* on the reversed list: head = upper, next = lower; the last element (index 0) is not touched *)
+  Fixpoint rloop2 (rl : list Z) (s : St) : outcome (list Z * St) :=
+    match rl with
+    | [] => Val ([], s)
+    | upper :: t =>
+        match t with
+        | [] => Val ([upper], s)
+        | lower :: _ =>
+            do rs <- stepo upper lower s ; do p <- rloop2 t (snd rs) ; Val (fst rs :: fst p, snd p)
+        end
+    end.
+
+  Lemma rloop2_cons2 u lo t s :
+    rloop2 (u :: lo :: t) s
+    = (do rs <- stepo u lo s ; do p <- rloop2 (lo :: t) (snd rs) ; Val (fst rs :: fst p, snd p)).
+  Proof. reflexivity. Qed.
+
+  Hypothesis Hbody : forall pre lower x post s, (length pre + 2 <= n)%nat -> P s -> Q lower -> Q x ->
+    body (Z.of_nat (length pre)) (inj (pre ++ lower :: x :: post) s)
+    = (do rs <- stepo x lower s ; Val (inj (pre ++ lower :: fst rs :: post) (snd rs)))
+    /\ (forall r s', stepo x lower s = Val (r, s') -> P s').
+
+  Lemma idx_loop_rev2 l : forall post s, (length l <= n)%nat -> P s -> Forall Q l ->
+    for_down (length l - 1) (inj (l ++ post) s) body
+    = (do p <- rloop2 (rev l) s ; Val (inj (rev (fst p) ++ post) (snd p))).
+  Proof.
+    induction l as [|x l IH] using rev_ind; intros post s Hn Hs Hq.
+    - reflexivity.
+    - apply Forall_app in Hq. destruct Hq as [Hq Hx]. inversion Hx as [|? ? Hx' _]; subst.
+      rewrite app_length in Hn |- *. cbn [length] in Hn |- *. rewrite Nat.add_1_r, Nat.sub_succ, Nat.sub_0_r.
+      rewrite rev_app_distr. cbn [rev app].
+      destruct l as [|y l'] using rev_ind.
+      + cbn [length for_down rev rloop2 obind fst snd app]. reflexivity.
+      + clear IHl'. rewrite app_length in Hn |- *. cbn [length] in Hn |- *. rewrite Nat.add_1_r. cbn [for_down].
+        apply Forall_app in Hq. destruct Hq as [Hq' Hy]. inversion Hy as [|? ? Hy' _]; subst.
+        rewrite <- !app_assoc. cbn [app].
+        destruct (Hbody l' y x post s ltac:(lia) Hs Hy' Hx') as [Eb Hp]. rewrite Eb.
+        rewrite rev_app_distr. cbn [rev app]. rewrite rloop2_cons2.
+        destruct (stepo x y s) as [[r s1]| | | |] eqn:Es; cbn [obind fst snd]; try reflexivity.
+        specialize (IH (r :: post) s1 ltac:(rewrite app_length; cbn [length]; lia) (Hp r s1 eq_refl)
+                      ltac:(apply Forall_app; split; [exact Hq' | exact Hy])).
+        rewrite app_length in IH. cbn [length] in IH. rewrite Nat.add_1_r, Nat.sub_succ, Nat.sub_0_r in IH.
+        rewrite <- app_assoc in IH. cbn [app] in IH. rewrite IH.
+        rewrite rev_app_distr. cbn [rev app].
+        destruct (rloop2 (y :: rev l') s1) as [[rs s2]| | | |]; cbn [obind fst snd rev]; try reflexivity.
+        rewrite <- app_assoc. reflexivity.
+  Qed.
+
+  Lemma rloop2_length rl : forall s p, rloop2 rl s = Val p -> length (fst p) = length rl.
+  Proof.
+    induction rl as [|u t IH]; intros s p E.
+    - cbn in E. inversion E; subst. reflexivity.
+    - destruct t as [|lo t'].
+      + cbn in E. inversion E; subst. reflexivity.
+      + rewrite rloop2_cons2 in E.
+        destruct (stepo u lo s) as [[r s1]| | | |]; cbn [obind fst snd] in E; try discriminate.
+        destruct (rloop2 (lo :: t') s1) as [p'| | | |] eqn:E'; cbn [obind] in E; try discriminate.
+        inversion E; subst. cbn [fst length]. f_equal. apply (IH s1 p' E').
+  Qed.
+  Lemma rloop2_inv rl : (forall u lo s r s', P s -> stepo u lo s = Val (r, s') -> P s') ->
+    forall s p, P s -> rloop2 rl s = Val p -> P (snd p).
+  Proof.
+    intros Hstep. induction rl as [|u t IH]; intros s p Hs E.
+    - cbn in E. inversion E; subst. exact Hs.
+    - destruct t as [|lo t'].
+      + cbn in E. inversion E; subst. exact Hs.
+      + rewrite rloop2_cons2 in E.
+        destruct (stepo u lo s) as [[r s1]| | | |] eqn:Es; cbn [obind fst snd] in E; try discriminate.
+        destruct (rloop2 (lo :: t') s1) as [p'| | | |] eqn:E'; cbn [obind] in E; try discriminate.
+        inversion E; subst. cbn [snd]. apply (IH s1 p' (Hstep _ _ _ _ _ Hs Es) E').
+  Qed.
+End RevLoop2.
+
+Lemma rev_last_removelast (l : list Z) : l <> [] -> rev l = last l 0 :: rev (removelast l).
+Proof.
+  intros H. rewrite (app_removelast_last 0 H) at 1. rewrite rev_app_distr. reflexivity.
+Qed.
+
+Definition nx_u (shift upper lower : Z) : Z := Z.lor (shl64 upper shift) (shr64 lower (64 - shift)).
+Definition nx1_step2 (shift d v : Z) (upper lower rem : Z) : outcome (Z * Z) :=
+  do qr <- DivSmall.div_2x1_mg10 (join rem (nx_u shift upper lower)) d v ; Val (fst qr, snd qr).
+Definition nx2_step2 (shift d v : Z) (upper lower rem : Z) : outcome (Z * Z) :=
+  do qr <- DivSmall.div_3x2_mg10 rem (nx_u shift upper lower) d v ; Val (fst qr, snd qr).
+
+Lemma nx1_loop_cons2 u lo t shift d v rem :
+  DivSmall.nx1_loop (u :: lo :: t) shift d v rem
+  = (do qr <- DivSmall.div_2x1_mg10 (join rem (nx_u shift u lo)) d v ;
+     do p <- DivSmall.nx1_loop (lo :: t) shift d v (snd qr) ; Val (fst qr :: fst p, snd p)).
+Proof. reflexivity. Qed.
+Lemma nx2_loop_cons2 u lo t shift d v rem :
+  DivSmall.nx2_loop (u :: lo :: t) shift d v rem
+  = (do qr <- DivSmall.div_3x2_mg10 rem (nx_u shift u lo) d v ;
+     do p <- DivSmall.nx2_loop (lo :: t) shift d v (snd qr) ; Val (fst qr :: fst p, snd p)).
+Proof. reflexivity. Qed.
+
+(* the model's loop = the downward loop followed by the separate last step on element 0 *)
+Lemma nx1_loop_split shift d v rl : forall rem, rl <> [] ->
+  DivSmall.nx1_loop rl shift d v rem
+  = (do p <- rloop2 Z (nx1_step2 shift d v) rl rem ;
+     do qr <- DivSmall.div_2x1_mg10 (join (snd p) (shl64 (last (fst p) 0) shift)) d v ;
+     Val (removelast (fst p) ++ [fst qr], snd qr)).
+Proof.
+  induction rl as [|u t IH]; intros rem Hne; [congruence|].
+  destruct t as [|lo t'].
+  - cbn [DivSmall.nx1_loop rloop2 obind fst snd last removelast app]. reflexivity.
+  - rewrite nx1_loop_cons2, rloop2_cons2. unfold nx1_step2 at 1.
+    destruct (DivSmall.div_2x1_mg10 (join rem (nx_u shift u lo)) d v) as [[q r1]| | | |]; cbn [obind fst snd]; try reflexivity.
+    rewrite (IH r1) by discriminate.
+    destruct (rloop2 Z (nx1_step2 shift d v) (lo :: t') r1) as [[rs s2]| | | |] eqn:E; cbn [obind fst snd]; try reflexivity.
+    pose proof (rloop2_length Z (nx1_step2 shift d v) _ _ _ E) as Hl. cbn [fst length] in Hl.
+    destruct rs as [|r0 rs']; [discriminate|].
+    change (last (q :: r0 :: rs') 0) with (last (r0 :: rs') 0).
+    change (removelast (q :: r0 :: rs')) with (q :: removelast (r0 :: rs')).
+    destruct (DivSmall.div_2x1_mg10 (join s2 (shl64 (last (r0 :: rs') 0) shift)) d v) as [[q2 r2]| | | |];
+      cbn [obind fst snd]; reflexivity.
+Qed.
+
+Lemma nx2_loop_split shift d v rl : forall rem, rl <> [] ->
+  DivSmall.nx2_loop rl shift d v rem
+  = (do p <- rloop2 Z (nx2_step2 shift d v) rl rem ;
+     do qr <- DivSmall.div_3x2_mg10 (snd p) (shl64 (last (fst p) 0) shift) d v ;
+     Val (removelast (fst p) ++ [fst qr], snd qr)).
+Proof.
+  induction rl as [|u t IH]; intros rem Hne; [congruence|].
+  destruct t as [|lo t'].
+  - cbn [DivSmall.nx2_loop rloop2 obind fst snd last removelast app]. reflexivity.
+  - rewrite nx2_loop_cons2, rloop2_cons2. unfold nx2_step2 at 1.
+    destruct (DivSmall.div_3x2_mg10 rem (nx_u shift u lo) d v) as [[q r1]| | | |]; cbn [obind fst snd]; try reflexivity.
+    rewrite (IH r1) by discriminate.
+    destruct (rloop2 Z (nx2_step2 shift d v) (lo :: t') r1) as [[rs s2]| | | |] eqn:E; cbn [obind fst snd]; try reflexivity.
+    pose proof (rloop2_length Z (nx2_step2 shift d v) _ _ _ E) as Hl. cbn [fst length] in Hl.
+    destruct rs as [|r0 rs']; [discriminate|].
+    change (last (q :: r0 :: rs') 0) with (last (r0 :: rs') 0).
+    change (removelast (q :: r0 :: rs')) with (q :: removelast (r0 :: rs')).
+    destruct (DivSmall.div_3x2_mg10 s2 (shl64 (last (r0 :: rs') 0) shift) d v) as [[q2 r2]| | | |];
+      cbn [obind fst snd]; reflexivity.
+Qed.
+
+Lemma lor_inW a b : inW a -> inW b -> inW (Z.lor a b).
+Proof.
+  unfold inW. rewrite B_pow. intros Ha Hb. split; [apply Z.lor_nonneg; lia|].
+  destruct (Z.eq_dec (Z.lor a b) 0) as [->|N]; [lia|].
+  apply Z.log2_lt_pow2; [pose proof (proj2 (Z.lor_nonneg a b) (conj (proj1 Ha) (proj1 Hb))); lia|].
+  rewrite Z.log2_lor by lia. apply Z.max_lub_lt.
+  - destruct (Z.eq_dec a 0) as [->|]; [cbn; lia|]. apply Z.log2_lt_pow2; lia.
+  - destruct (Z.eq_dec b 0) as [->|]; [cbn; lia|]. apply Z.log2_lt_pow2; lia.
+Qed.
+Lemma shl64_inW x s : inW (shl64 x s).
+Proof. unfold shl64, inW. apply Z.mod_pos_bound, B_pos. Qed.
+Lemma shr64_inW x s : inW x -> 0 <= s -> inW (shr64 x s).
+Proof.
+  unfold shr64, inW. intros Hx Hs. assert (0 < 2 ^ s) by (apply Z.pow_pos_nonneg; lia).
+  split; [apply Z.div_pos; lia|]. apply Z.div_lt_upper_bound; [lia|]. nia.
+Qed.
+Lemma nx_u_inW shift u lo : inW lo -> 0 <= 64 - shift -> inW (nx_u shift u lo).
+Proof. intros. unfold nx_u. apply lor_inW; [apply shl64_inW | apply shr64_inW; assumption]. Qed.
+
+Lemma idx_app_mid2 pre lower x post :
+  idx (pre ++ lower :: x :: post) (1 + Z.of_nat (length pre)) = Val x.
+Proof.
+  replace (pre ++ lower :: x :: post) with ((pre ++ [lower]) ++ x :: post) by (rewrite <- app_assoc; reflexivity).
+  replace (1 + Z.of_nat (length pre)) with (Z.of_nat (length (pre ++ [lower])))
+    by (rewrite app_length; cbn [length]; lia).
+  apply idx_app_mid.
+Qed.
+Lemma upd_app_mid2 pre lower x post v :
+  upd (pre ++ lower :: x :: post) (1 + Z.of_nat (length pre)) v = pre ++ lower :: v :: post.
+Proof.
+  replace (pre ++ lower :: x :: post) with ((pre ++ [lower]) ++ x :: post) by (rewrite <- app_assoc; reflexivity).
+  replace (1 + Z.of_nat (length pre)) with (Z.of_nat (length (pre ++ [lower])))
+    by (rewrite app_length; cbn [length]; lia).
+  rewrite upd_app_mid. rewrite <- app_assoc. reflexivity.
+Qed.
+
+Lemma nth_error_last (l : list Z) : l <> [] ->
+  nth_error l (Z.to_nat (lenZ l - 1)) = Some (last l 0).
+Proof.
+  intros H. rewrite (app_removelast_last 0 H) at 1 2. unfold lenZ.
+  rewrite app_length. cbn [length].
+  replace (Z.to_nat (Z.of_nat (length (removelast l) + 1) - 1)) with (length (removelast l)) by lia.
+  rewrite nth_error_app2 by lia. rewrite Nat.sub_diag. reflexivity.
+Qed.
+Lemma idx_last (l : list Z) : l <> [] -> idx l (lenZ l - 1) = Val (last l 0).
+Proof. intros H. unfold idx. rewrite nth_error_last by exact H. reflexivity. Qed.
+Lemma idx_0_rev_last (l : list Z) post : l <> [] -> idx (rev l ++ post) 0 = Val (last l 0).
+Proof. intros H. rewrite (rev_last_removelast l H). reflexivity. Qed.
+Lemma upd_0_rev (l : list Z) post v : l <> [] ->
+  upd (rev l ++ post) 0 v = rev (removelast l ++ [v]) ++ post.
+Proof.
+  intros H. rewrite (rev_last_removelast l H). rewrite rev_app_distr. reflexivity.
+Qed.
+
+Lemma idx_0_rev_last' (l : list Z) : l <> [] -> idx (rev l) 0 = Val (last l 0).
+Proof. intros H. rewrite (rev_last_removelast l H). reflexivity. Qed.
+Lemma upd_0_rev' (l : list Z) v : l <> [] -> upd (rev l) 0 v = rev (removelast l ++ [v]).
+Proof. intros H. rewrite (rev_last_removelast l H). rewrite rev_app_distr. reflexivity. Qed.
+
+Lemma chksh_ok w s : 0 <= s < w -> chksh w s = Val s.
+Proof. intros H. unfold chksh. replace ((0 <=? s) && (s <? w)) with true by lia. reflexivity. Qed.
+
+Lemma swap_bind {A C} (o : outcome (A * C)) :
+  (do t <- omap (fun p => (snd p, fst p)) o ; let '(x, y) := t in Val (x, y))
+  = omap (fun p => (snd p, fst p)) o.
+Proof. destruct o as [[a c]| | | |]; reflexivity. Qed.
+
+Lemma g_div_nx1_eq limbs divisor :
+  Forall inW limbs -> inW divisor -> lenZ limbs < B ->
+  g_div_nx1 limbs divisor = omap (fun p => (snd p, fst p)) (DivSmall.div_nx1 limbs divisor).
+Proof.
+  intros Hl Hd Hlen. unfold g_div_nx1, DivSmall.div_nx1.
+  destruct (Z.eqb_spec divisor 0) as [E0|N0]; cbn [negb]; [reflexivity|].
+  destruct limbs as [|l0 ls] eqn:El; [reflexivity|]. rewrite <- El in *.
+  assert (Hne : limbs <> []) by (rewrite El; discriminate). clear El l0 ls.
+  assert (E1 : (lenZ limbs =? 0) = false).
+  { unfold lenZ. destruct limbs; [congruence | cbn [length]; lia]. }
+  rewrite E1. cbn [negb].
+  rewrite nth_error_last by exact Hne. cbn [obind].
+  rewrite (rev_last_removelast limbs Hne).
+  destruct (Z.eqb_spec (last limbs 0) 0) as [|Nl]; cbn [negb]; [reflexivity|].
+  unfold inW in Hd. destruct (PfDivSmall.clz64_spec divisor ltac:(lia)) as [Hs Hnorm].
+  set (shift := clz64 divisor) in *.
+  destruct (Z.eqb_spec shift 0) as [Es|Ns].
+  { rewrite g_div_nx1_normalized_eq by (auto; unfold inW; lia).
+    destruct (DivSmall.div_nx1_normalized limbs divisor) as [[a c]| | | |]; reflexivity. }
+  rewrite chksh_ok by lia. cbn [obind]. cbv zeta.
+  rewrite g_reciprocal_mg10_eq by apply shl64_inW.
+  destruct (reciprocal_mg10 (shl64 divisor shift)) as [v| | | |] eqn:Ev; cbn [obind omap]; try reflexivity.
+  pose proof (reciprocal_mg10_inW _ _ Ev) as Hv.
+  assert (Hlp : 0 < lenZ limbs) by (unfold lenZ; destruct limbs; [congruence | cbn [length]; lia]).
+  rewrite chk64_ok by lia. cbn [obind]. rewrite idx_last by exact Hne. cbn [obind].
+  rewrite chk64_ok by (rewrite B_val; lia). cbn [obind]. rewrite chksh_ok by lia. cbn [obind].
+  assert (Hlast : inW (last limbs 0)).
+  { rewrite Forall_forall in Hl. apply Hl. rewrite (app_removelast_last 0 Hne) at 2. apply in_or_app. right. left. reflexivity. }
+  replace (Z.to_nat (lenZ limbs - 1)) with (length limbs - 1)%nat by (unfold lenZ; lia).
+  cbv beta zeta.
+  match goal with |- context [for_down _ _ ?bd] =>
+    pose proof (idx_loop_rev2 (list Z * Z) Z (fun l s => (l, s)) (nx1_step2 shift (shl64 divisor shift) v)
+                  inW inW (length limbs) bd) as L end.
+  pose proof (L ltac:(
+    intros pre lower x post s Hk Hs' Hlo Hx; cbv beta iota zeta;
+    assert (Hpl : Z.of_nat (length pre) < B) by (unfold lenZ in Hlen; lia);
+    rewrite chk64_ok by lia; cbn [obind];
+    rewrite idx_app_mid2; cbn [obind]; rewrite ?chksh_ok by lia; cbn [obind];
+    replace (1 + Z.of_nat (length pre) - 1) with (Z.of_nat (length pre)) by lia;
+    rewrite idx_app_mid; cbn [obind];
+    rewrite ?chksh_ok by lia; rewrite ?(chk64_ok (64 - shift)) by (rewrite B_val; lia); cbn [obind];
+    rewrite ?chksh_ok by lia; cbn [obind];
+    fold (nx_u shift x lower);
+    pose proof (nx_u_inW shift x lower Hlo ltac:(lia)) as Hu;
+    rewrite g_dw_join_eq by assumption;
+    rewrite g_div_2x1_mg10_eq by (try apply join_range; try apply shl64_inW; assumption);
+    unfold nx1_step2;
+    destruct (DivSmall.div_2x1_mg10 (join s (nx_u shift x lower)) (shl64 divisor shift) v) as [[q r1]| | | |] eqn:E2;
+      cbn [obind fst snd];
+    (split; [try reflexivity | intros r' s' E'; try discriminate]);
+    [ rewrite ?idx_app_mid2; cbn [obind]; rewrite upd_app_mid2; reflexivity
+    | injection E' as <- <-; apply (div_2x1_mg10_range _ _ _ _ _ E2) ])
+    limbs [] (shr64 (last limbs 0) (64 - shift)) (Nat.le_refl _)
+    ltac:(apply shr64_inW; [exact Hlast | lia]) Hl) as E.
+  rewrite app_nil_r in E. cbv beta in E. rewrite E. clear E L.
+  rewrite (rev_last_removelast limbs Hne) at 1.
+  rewrite nx1_loop_split by discriminate.
+  destruct (rloop2 Z (nx1_step2 shift (shl64 divisor shift) v) (last limbs 0 :: rev (removelast limbs))
+              (shr64 (last limbs 0) (64 - shift))) as [[rs s2]| | | |] eqn:ER; cbn [obind omap fst snd]; try reflexivity.
+  pose proof (rloop2_length Z (nx1_step2 shift (shl64 divisor shift) v) _ _ _ ER) as Hrl. cbn [fst length] in Hrl.
+  assert (Hrs : rs <> []) by (destruct rs; [discriminate | discriminate]).
+  assert (Hstep : forall u lo s r s', inW s -> nx1_step2 shift (shl64 divisor shift) v u lo s = Val (r, s') -> inW s').
+  { intros u lo s r s' _ Est. unfold nx1_step2 in Est.
+    destruct (DivSmall.div_2x1_mg10 (join s (nx_u shift u lo)) (shl64 divisor shift) v) as [[q r1]| | | |] eqn:E2;
+      cbn [obind fst snd] in Est; try discriminate. injection Est as <- <-.
+    apply (div_2x1_mg10_range _ _ _ _ _ E2). }
+  assert (Hs0 : inW (shr64 (last limbs 0) (64 - shift))) by (apply shr64_inW; [exact Hlast | lia]).
+  pose proof (rloop2_inv Z (nx1_step2 shift (shl64 divisor shift) v) inW _ Hstep _ _ Hs0 ER) as Hs2.
+  cbn [snd] in Hs2.
+  rewrite app_nil_r. rewrite idx_0_rev_last' by exact Hrs. cbn [obind].
+  rewrite g_dw_join_eq by (try apply shl64_inW; assumption).
+  rewrite g_div_2x1_mg10_eq by (try apply join_range; try apply shl64_inW; assumption).
+  destruct (DivSmall.div_2x1_mg10 (join s2 (shl64 (last rs 0) shift)) (shl64 divisor shift) v) as [[q r1]| | | |];
+    cbn [obind omap fst snd]; try reflexivity.
+  rewrite upd_0_rev' by exact Hrs. reflexivity.
+Qed.
+
+Lemma g_div_nx2_eq limbs divisor :
+  Forall inW limbs -> 0 <= divisor < BB -> lenZ limbs < B ->
+  g_div_nx2 limbs divisor = omap (fun p => (snd p, fst p)) (DivSmall.div_nx2 limbs divisor).
+Proof.
+  intros Hl Hd Hlen. unfold g_div_nx2, DivSmall.div_nx2.
+  rewrite <- B_val.
+  destruct (Z.ltb_spec divisor B) as [E0|N0].
+  { destruct (Z.leb_spec B divisor); [lia | reflexivity]. }
+  destruct (Z.leb_spec B divisor); [|lia]. cbn [negb].
+  destruct limbs as [|l0 ls] eqn:El; [reflexivity|]. rewrite <- El in *.
+  assert (Hne : limbs <> []) by (rewrite El; discriminate). clear El l0 ls.
+  assert (E1 : (lenZ limbs =? 0) = false).
+  { unfold lenZ. destruct limbs; [congruence | cbn [length]; lia]. }
+  rewrite E1. cbn [negb].
+  rewrite nth_error_last by exact Hne. cbn [obind].
+  rewrite (rev_last_removelast limbs Hne).
+  destruct (Z.eqb_spec (last limbs 0) 0) as [|Nl]; cbn [negb]; [reflexivity|].
+  rewrite g_dw_high_eq by exact Hd.
+  assert (Hhi : 0 < hi128 divisor < B).
+  { unfold hi128. rewrite BB_sq in Hd. pose proof B_pos. split.
+    - apply Z.div_str_pos. lia.
+    - apply Z.div_lt_upper_bound; lia. }
+  destruct (PfDivSmall.clz64_spec (hi128 divisor) Hhi) as [Hs Hnorm].
+  set (shift := clz64 (hi128 divisor)) in *.
+  destruct (Z.eqb_spec shift 0) as [Es|Ns].
+  { rewrite g_div_nx2_normalized_eq by auto.
+    destruct (DivSmall.div_nx2_normalized limbs divisor) as [[a c]| | | |]; reflexivity. }
+  rewrite chksh_ok by lia. cbn [obind]. cbv zeta.
+  change (Prim.shl128 divisor shift) with (DivSmall.shl128 divisor shift).
+  assert (Hdn : 0 <= DivSmall.shl128 divisor shift < BB) by (unfold DivSmall.shl128; apply Z.mod_pos_bound; reflexivity).
+  rewrite g_reciprocal_2_mg10_eq by exact Hdn.
+  destruct (reciprocal_2_mg10 (DivSmall.shl128 divisor shift)) as [v| | | |] eqn:Ev; cbn [obind omap]; try reflexivity.
+  pose proof (reciprocal_2_mg10_inW _ _ Ev) as Hv.
+  assert (Hlp : 0 < lenZ limbs) by (unfold lenZ; destruct limbs; [congruence | cbn [length]; lia]).
+  rewrite chk64_ok by lia. cbn [obind]. rewrite idx_last by exact Hne. cbn [obind].
+  rewrite chk64_ok by (rewrite B_val; lia). cbn [obind]. rewrite chksh_ok by lia. cbn [obind].
+  assert (Hlast : inW (last limbs 0)).
+  { rewrite Forall_forall in Hl. apply Hl. rewrite (app_removelast_last 0 Hne) at 2. apply in_or_app. right. left. reflexivity. }
+  replace (Z.to_nat (lenZ limbs - 1)) with (length limbs - 1)%nat by (unfold lenZ; lia).
+  assert (Hs0 : 0 <= shr64 (last limbs 0) (64 - shift) < BB).
+  { pose proof (shr64_inW (last limbs 0) (64 - shift) Hlast ltac:(lia)) as H0. unfold inW in H0.
+    rewrite BB_sq. pose proof B_pos. nia. }
+  cbv beta zeta.
+  match goal with |- context [for_down _ _ ?bd] =>
+    pose proof (idx_loop_rev2 (list Z * Z) Z (fun l s => (l, s)) (nx2_step2 shift (DivSmall.shl128 divisor shift) v)
+                  (fun r => 0 <= r < BB) inW (length limbs) bd) as L end.
+  pose proof (L ltac:(
+    intros pre lower x post s Hk Hs' Hlo Hx; cbv beta iota zeta;
+    assert (Hpl : Z.of_nat (length pre) < B) by (unfold lenZ in Hlen; lia);
+    rewrite chk64_ok by lia; cbn [obind];
+    rewrite idx_app_mid2; cbn [obind]; rewrite ?chksh_ok by lia; cbn [obind];
+    replace (1 + Z.of_nat (length pre) - 1) with (Z.of_nat (length pre)) by lia;
+    rewrite idx_app_mid; cbn [obind];
+    rewrite ?chksh_ok by lia; rewrite ?(chk64_ok (64 - shift)) by (rewrite B_val; lia); cbn [obind];
+    rewrite ?chksh_ok by lia; cbn [obind];
+    fold (nx_u shift x lower);
+    pose proof (nx_u_inW shift x lower Hlo ltac:(lia)) as Hu;
+    rewrite g_div_3x2_mg10_eq by assumption;
+    unfold nx2_step2;
+    destruct (DivSmall.div_3x2_mg10 s (nx_u shift x lower) (DivSmall.shl128 divisor shift) v) as [[q r1]| | | |] eqn:E2;
+      cbn [obind fst snd];
+    (split; [try reflexivity | intros r' s' E'; try discriminate]);
+    [ rewrite ?idx_app_mid2; cbn [obind]; rewrite upd_app_mid2; reflexivity
+    | injection E' as <- <-; apply (div_3x2_mg10_range _ _ _ _ _ _ E2) ])
+    limbs [] (shr64 (last limbs 0) (64 - shift)) (Nat.le_refl _)
+    Hs0 Hl) as E.
+  rewrite app_nil_r in E. cbv beta in E. rewrite E. clear E L.
+  rewrite (rev_last_removelast limbs Hne) at 1.
+  rewrite nx2_loop_split by discriminate.
+  destruct (rloop2 Z (nx2_step2 shift (DivSmall.shl128 divisor shift) v) (last limbs 0 :: rev (removelast limbs))
+              (shr64 (last limbs 0) (64 - shift))) as [[rs s2]| | | |] eqn:ER; cbn [obind omap fst snd]; try reflexivity.
+  pose proof (rloop2_length Z (nx2_step2 shift (DivSmall.shl128 divisor shift) v) _ _ _ ER) as Hrl. cbn [fst length] in Hrl.
+  assert (Hrs : rs <> []) by (destruct rs; [discriminate | discriminate]).
+  assert (Hstep : forall u lo s r s', 0 <= s < BB ->
+            nx2_step2 shift (DivSmall.shl128 divisor shift) v u lo s = Val (r, s') -> 0 <= s' < BB).
+  { intros u lo s r s' _ Est. unfold nx2_step2 in Est.
+    destruct (DivSmall.div_3x2_mg10 s (nx_u shift u lo) (DivSmall.shl128 divisor shift) v) as [[q r1]| | | |] eqn:E2;
+      cbn [obind fst snd] in Est; try discriminate. injection Est as <- <-.
+    apply (div_3x2_mg10_range _ _ _ _ _ _ E2). }
+  pose proof (rloop2_inv Z (nx2_step2 shift (DivSmall.shl128 divisor shift) v) (fun r => 0 <= r < BB) _ Hstep _ _ Hs0 ER) as Hs2.
+  cbn [snd] in Hs2.
+  rewrite app_nil_r. rewrite idx_0_rev_last' by exact Hrs. cbn [obind].
+  rewrite ?chksh_ok by lia. cbn [obind].
+  rewrite g_div_3x2_mg10_eq by (try apply shl64_inW; assumption).
+  destruct (DivSmall.div_3x2_mg10 s2 (shl64 (last rs 0) shift) (DivSmall.shl128 divisor shift) v) as [[q r1]| | | |];
+    cbn [obind omap fst snd]; try reflexivity.
+  rewrite upd_0_rev' by exact Hrs. reflexivity.
 Qed.
